@@ -2612,11 +2612,6 @@ impl DcpsDomainParticipant {
 
         for subscriber in &mut self.domain_participant.user_defined_subscriber_list {
             for data_reader in &mut subscriber.data_reader_list {
-                // Remove samples
-                data_reader
-                    .sample_list
-                    .retain(|sample| sample.writer_guid[..12] != prefix);
-
                 let removed_writer_guids: Vec<_> = data_reader
                     .matched_publication_list
                     .iter()
